@@ -10,6 +10,10 @@ use serde_json::{json, Value};
 pub const RESPELLINGS: [&str; 15] = ["slash->backslash", "backslash->slash", "upper", "lower", "first-letter-case", "trailing-space", "trailing-nul", "trailing-slash", "leading-dot-slash", "doubled-slash", "decomposed", "leading-space", "first-char+256", "last-char+256", "last-char+65536"];
 /// Edits of an integer: wrap-around distances of the usual widths, neighbours, sign.
 pub const NUMBER_EDITS: [&str; 9] = ["+1", "-1", "negated", "+2^8", "+2^16", "+2^31", "+2^32", "-2^32", "+2^63"];
+/// A member's value moved to a second member whose *name* is a re-spelling of the first's, the
+/// original member keeping an altered value: two members where one was signed. For readers that
+/// fold member names (paths, identifiers, algorithm names) the two may become one.
+pub const ALIAS_RESPELLINGS: [&str; 7] = ["trailing-slash", "doubled-slash", "leading-dot-slash", "upper", "first-letter-case", "trailing-space", "slash->backslash"];
 /// Edits of null / empty values / booleans and of a member as a whole.
 pub const SHAPE_EDITS: [&str; 10] = ["null->{}", "null->[]", "null->empty-string", "null->0", "null->false", "{}->null", "[]->null", "empty-string->null", "flipped", "member-removed"];
 
@@ -24,6 +28,14 @@ pub fn respell(cur: &str, kind: &str) -> Option<String> {
             let c = cur.as_bytes()[i] as char;
             let sw = if c.is_ascii_uppercase() { c.to_ascii_lowercase() } else { c.to_ascii_uppercase() };
             format!("{}{}{}", &cur[..i], sw, &cur[i + 1..])
+        }
+        // (internal, for "another value of the same shape") a hex text with another first digit
+        "other-first-digit" => {
+            let c = cur.chars().next()?;
+            if !c.is_ascii_hexdigit() || !cur.chars().all(|c| c.is_ascii_hexdigit()) {
+                return None;
+            }
+            format!("{}{}", if c == '0' { '1' } else { '0' }, &cur[1..])
         }
         "trailing-space" => format!("{cur} "),
         "leading-space" => format!(" {cur}"),
@@ -141,9 +153,74 @@ fn walk(v: &Value, at: &str, out: &mut Vec<String>) {
             for (k, x) in o {
                 let p = format!("{at}/{}", escape(k));
                 out.push(format!("member-removed@{p}"));
+                for r in ALIAS_RESPELLINGS {
+                    if !free_text_names(at) {
+                        break;
+                    }
+                    if let Some(alias) = respell(k, r) {
+                        if !o.contains_key(&alias) && altered(x).is_some() {
+                            out.push(format!("alias-member:{r}@{p}"));
+                        }
+                    }
+                }
                 walk(x, &p, out);
             }
         }
+    }
+}
+
+/// Objects of the metadata formats whose member names are data (artifact paths, algorithm names,
+/// environment and byproduct names), by the pointer of the object. (Key-table labels are left to C12: an alias label is a misfiled entry, which the reader drops.)
+fn free_text_names(at: &str) -> bool {
+    let parts: Vec<&str> = at.split('/').collect();
+    match parts.as_slice() {
+        ["", "materials"] | ["", "products"] | ["", "environment"] | ["", "byproducts"] => true,
+        ["", "materials", _] | ["", "products", _] => true,
+        _ => false,
+    }
+}
+
+/// Some other value of the same shape (the first applicable leaf edit inside it).
+fn altered(v: &Value) -> Option<Value> {
+    let mut names = vec![];
+    walk_leaves_only(v, "", &mut names);
+    for n in names {
+        let mut c = v.clone();
+        if apply(&mut c, &n) && c != *v {
+            return Some(c);
+        }
+    }
+    match v {
+        Value::Null => Some(json!("x")),
+        Value::Object(o) if o.is_empty() => Some(json!({"x": "y"})),
+        Value::Array(a) if a.is_empty() => Some(json!(["x"])),
+        _ => None,
+    }
+}
+
+/// Leaf edits only (no member-level ones): used to make "another value of the same shape".
+fn walk_leaves_only(v: &Value, at: &str, out: &mut Vec<String>) {
+    match v {
+        Value::String(s) => {
+            for k in ["other-first-digit", "first-letter-case", "trailing-space"] {
+                if respell(s, k).is_some() {
+                    out.push(format!("{k}@{at}"));
+                }
+            }
+        }
+        Value::Number(_) => out.push(format!("+1@{at}")),
+        Value::Bool(_) => out.push(format!("flipped@{at}")),
+        Value::Array(a) => {
+            for (i, x) in a.iter().enumerate() {
+                walk_leaves_only(x, &format!("{at}/{i}"), out);
+            }
+        }
+        Value::Object(o) => {
+            for (k, x) in o {
+                walk_leaves_only(x, &format!("{at}/{}", escape(k)), out);
+            }
+        }
+        Value::Null => {}
     }
 }
 
@@ -162,6 +239,20 @@ pub fn kind_of(name: &str) -> &str {
 /// Apply one named edit. Returns false if it does not apply to this document.
 pub fn apply(doc: &mut Value, name: &str) -> bool {
     let Some((kind, ptr)) = name.split_once('@') else { return false };
+    if let Some(r) = kind.strip_prefix("alias-member:") {
+        let Some((parent, last)) = ptr.rsplit_once('/') else { return false };
+        let key = last.replace("~1", "/").replace("~0", "~");
+        let Some(alias) = respell(&key, r) else { return false };
+        let Some(obj) = doc.pointer_mut(parent).and_then(|p| p.as_object_mut()) else { return false };
+        let Some(orig) = obj.get(&key).cloned() else { return false };
+        let Some(other) = altered(&orig) else { return false };
+        if obj.contains_key(&alias) {
+            return false;
+        }
+        obj.insert(alias, orig);
+        obj.insert(key, other);
+        return true;
+    }
     if kind == "member-removed" {
         let Some((parent, last)) = ptr.rsplit_once('/') else { return false };
         let key = last.replace("~1", "/").replace("~0", "~");
